@@ -932,6 +932,11 @@ class Emitter:
             return s.mask('((u64)(%s %s %s))' % (s.sx(a, t), o, s.sx(b, t)), t)
         if bop == 'shl':
             return s.mask('((%s)%s << %s)' % (ct, a, b), t) if s.cbits(rt.bits) >= 32 else s.mask('vf_shl%d(%s,%s)' % (s.cbits(rt.bits), a, b), t)
+        if bop == 'lshr' and re.fullmatch(r'\(\((u\d+|u1)\)\d+ULL\)', a):
+            # constant >> x: clang's switch lowering to a bit-mask test executes the shift speculatively (the result is unused when
+            # x is out of range; poison in LLVM, not UB), so the C form is made total instead of tripping --undefined-shift-check
+            w = s.cbits(rt.bits)
+            return s.mask('((u64)%s < %d ? ((%s)%s >> %s) : (%s)0)' % (b, rt.bits, ct if w >= 32 else 'u32', a, b, ct if w >= 32 else 'u32'), t)
         if bop == 'lshr':
             return s.mask('((%s)%s >> %s)' % (ct, a, b), t) if s.cbits(rt.bits) >= 32 else s.mask('vf_lshr%d(%s,%s)' % (s.cbits(rt.bits), a, b), t)
         if bop == 'ashr':
